@@ -1,5 +1,6 @@
 import PysphVerif.Lemmas.Needs
 import PysphVerif.Lemmas.NeedsCodegen
+import PysphVerif.Lemmas.NeedsObjects
 /-!
 # C20 — incomplete problems are rejected at set-up, never compiled and run
 
@@ -585,6 +586,91 @@ theorem stepper_missing_arg_is_rejected (arrs : List PArr) (sts : List Stepper)
     cases hpa'
   | missing c d ns => exact ⟨c, d, ns, rfl⟩
 
+/-! ## object identity: one stepper object given to several arrays
+
+`Integrator(fluid=step, solid=step)` hands ONE stepper object to two keywords
+(`Model/NeedsObjects.lean`).  The code generator ranges over keywords, so the
+check is per (array, stepper) pair.  A check per stepper OBJECT would be
+incomplete, and it differs from the code exactly when an object is shared. -/
+
+/-- **shared_stepper_checked_per_array.**  If the integrator code is generated
+without an error then for EVERY keyword — also one that was given a stepper
+object some earlier keyword already carries — every `d_*`/`s_*` argument of every
+wrapped method of its stepper is a property or constant of THAT keyword's array. -/
+theorem shared_stepper_checked_per_array (arrs : List PArr) (s : StepperSetup)
+    (h : checkSetup arrs s = SVerdict.ok) :
+    ∀ k ∈ s.kw, ∀ o, s.objs[k.2]? = some o → ∃ pa, findArr arrs k.1 = some pa ∧
+      ∀ m, (m ∈ o.methods.map (·.1) ∨ m ∈ wrapperNames s.pairs) →
+        ∀ x ∈ (o.on k.1).args m, (isSrcArr x || isDstArr x) = true → strip x ∈ pa.props := by
+  intro k hk o ho
+  have hmem : o.on k.1 ∈ s.pairs := (mem_pairsOf _ _ _).mpr ⟨k, hk, o, ho, rfl⟩
+  exact stepper_check_complete arrs s.pairs h (o.on k.1) hmem
+
+/-- **shared_stepper_bindings_exist.**  Every pointer the generated integrator
+binds — one set-up per keyword, whether or not its stepper object is shared —
+exists in the array of that keyword. -/
+theorem shared_stepper_bindings_exist (arrs : List PArr) (s : StepperSetup)
+    (h : checkSetup arrs s = SVerdict.ok) :
+    ∀ b ∈ setupBindings s, ∃ pa, findArr arrs b.1 = some pa ∧ b.2.2 ∈ pa.props := by
+  intro b hb
+  obtain ⟨pa, hpa, hp, _⟩ := stepper_bound_names_are_checked arrs s.pairs h b hb
+  exact ⟨pa, hpa, hp⟩
+
+/-- **shared_stepper_incomplete_is_rejected.**  If all keywords are particle
+arrays and the array of SOME keyword — first or later among those that carry
+the same object — lacks a property that a method of its stepper names through
+`d_*` or `s_*`, code generation raises the "requires the following properties"
+error. -/
+theorem shared_stepper_incomplete_is_rejected (arrs : List PArr) (s : StepperSetup)
+    (hnames : checkStepperNames arrs s.pairs = SVerdict.ok)
+    (k : Name × Nat) (hk : k ∈ s.kw) (o : StepObj) (ho : s.objs[k.2]? = some o)
+    (m : Name) (hm : m ∈ o.methods.map (·.1))
+    (x : Name) (hx : x ∈ (o.on k.1).args m) (hsd : (isSrcArr x || isDstArr x) = true)
+    (pa : PArr) (hpa : findArr arrs k.1 = some pa) (hmiss : strip x ∉ pa.props) :
+    ∃ c d ns, checkSetup arrs s = SVerdict.missing c d ns := by
+  have hmem : o.on k.1 ∈ s.pairs := (mem_pairsOf _ _ _).mpr ⟨k, hk, o, ho, rfl⟩
+  exact stepper_missing_arg_is_rejected arrs s.pairs hnames (o.on k.1) hmem m hm x hx hsd pa
+    hpa hmiss
+
+/-- **per_object_check_agrees_when_unshared.**  When every keyword was given
+its own stepper object (also objects of one class), checking once per object is
+the same as what the code does; the two can differ only on a shared object. -/
+theorem per_object_check_agrees_when_unshared (arrs : List PArr) (s : StepperSetup)
+    (h : (s.kw.map (·.2)).Nodup) : checkSetupPerObject arrs s = checkSetup arrs s := by
+  unfold checkSetupPerObject checkSetup checkSteppers StepperSetup.pairs
+  rw [firstPerObject_eq_self [] s.kw h (fun _ _ hm => by cases hm)]
+  cases checkStepperNames arrs (pairsOf s.objs s.kw) <;> rfl
+
+def rk2Obj : StepObj :=
+  { cls := "RK2Step",
+    methods := [("initialize", ["self", "d_idx", "d_x0", "d_x"]),
+                ("stage1", ["self", "d_idx", "d_x0", "d_x", "d_u", "dt"])],
+    pyStages := [] }
+def rk2Arrs : List PArr :=
+  [{ name := "fluid", props := ["tag", "pid", "gid", "x", "u", "x0"] },
+   { name := "solid", props := ["tag", "pid", "gid", "x", "u"] }]
+/-- `step = RK2Step(); Integrator(fluid=step, solid=step)` -/
+def rk2Shared : StepperSetup := { objs := [rk2Obj], kw := [("fluid", 0), ("solid", 0)] }
+
+/-- **per_object_check_incomplete (counterexample).**  A property check that is
+run once per stepper object accepts `Integrator(fluid=step, solid=step)` with a
+`solid` that has no `x0`, although the generated integrator binds
+`d_x0 = dst.x0.data` for `solid`; the check of the code (per keyword) rejects it
+naming the class, `solid` and `x0`. -/
+theorem per_object_check_incomplete :
+    rk2Shared.wf = true ∧
+    checkSetupPerObject rk2Arrs rk2Shared = SVerdict.ok ∧
+    ("solid", "d_x0", "x0") ∈ setupBindings rk2Shared ∧
+    (∀ pa, findArr rk2Arrs "solid" = some pa → "x0" ∉ pa.props) ∧
+    checkSetup rk2Arrs rk2Shared = SVerdict.missing "RK2Step" "solid" ["x0"] := by
+  refine ⟨by decide +kernel, by decide +kernel, by decide +kernel, ?_, by decide +kernel⟩
+  intro pa h
+  have : findArr rk2Arrs "solid" =
+      some { name := "solid", props := ["tag", "pid", "gid", "x", "u"] } := by decide +kernel
+  rw [this] at h
+  cases h
+  decide +kernel
+
 /-! ## the whole build -/
 
 /-- **no_incomplete_problem_reaches_execution.**  If `AccelerationEval(...)`
@@ -801,5 +887,19 @@ example :
     stepperDeclNames [dampStepper "fluid"] "stage1" = ["d_rho", "d_x", "s_damp"] := by
   refine ⟨by decide +kernel, by decide +kernel, by decide +kernel, by decide +kernel,
     by decide +kernel⟩
+
+/-- two objects of one class are checked one by one by either reading; the shared
+object with the incomplete array named first is rejected by both -/
+example :
+    checkSetup rk2Arrs { objs := [rk2Obj, rk2Obj], kw := [("fluid", 0), ("solid", 1)] } =
+      SVerdict.missing "RK2Step" "solid" ["x0"] ∧
+    checkSetupPerObject rk2Arrs { objs := [rk2Obj, rk2Obj], kw := [("fluid", 0), ("solid", 1)] } =
+      SVerdict.missing "RK2Step" "solid" ["x0"] ∧
+    checkSetupPerObject rk2Arrs { objs := [rk2Obj], kw := [("solid", 0), ("fluid", 0)] } =
+      SVerdict.missing "RK2Step" "solid" ["x0"] ∧
+    checkSetup [{ name := "fluid", props := ["tag", "pid", "gid", "x", "u", "x0"] },
+                { name := "solid", props := ["tag", "pid", "gid", "x", "u", "x0", "m"] }]
+      rk2Shared = SVerdict.ok := by
+  refine ⟨by decide +kernel, by decide +kernel, by decide +kernel, by decide +kernel⟩
 
 end PysphVerif.C20
